@@ -125,3 +125,96 @@ Proof.
   apply (ppu_datetime_time O jf t0 {| tsec := 1700000000; tnsec := 5; toff := 3600 |}); vm_compute; repeat split; congruence.
 Qed.
 
+
+(* ---------------------------------------------------------------------------------------------
+   WHOLE ROWS (proofs/TemplateLosslessRow.v). A template with any number of declared columns,
+   pairwise distinct names; [spec : list (cdecl * slot)] lists them in declaration order, each with
+   what it holds:
+     cdecl = (name, format, raw type);  tpl_of cols = With(c1,f1,T1).With(c2,f2,T2)... from an empty template
+     slot  = SlVal v v' e leaf txt   a typed value v with the facts of C13_column_upto (v' is read back)
+           | SlNil inmap             nil: the key is absent from the map (false) or maps to nil (true)
+           | SlHid x x'              a hidden column (format Hidden) holding x, kept as x' = cast.To(T, x)
+     slot_ok: column_ok_upto for SlVal; for SlNil a well-formed UTF-8 name when the column is visible and
+              cast.To(T, nil) = nil when the nil is in the map; for SlHid the format is Hidden and
+              cast.To(T, x) = x'
+     row_map spec        the map handed to CreateRow, entries in declaration order (C13_row_upto_any_order:
+                         in any order)
+     extras              undeclared keys, after the declared ones, holding parsed JSON values
+                         (rv_members extras = their values as the reader builds them); extras_ok: distinct
+                         names, none declared, well-formed UTF-8 names, well-formed trees with unique member
+                         names at every depth, nested at most (n+1)/4 deep (jfuel d <= S n)
+     row_members spec    the members written: visible columns in declaration order, leaf_i for a value,
+                         null for a nil column, nothing for a hidden column
+     row_read spec extras  the row read back: column i holds v'_i (same format and raw type), nil columns
+                         nil, hidden columns nil (they are not written), then the undeclared keys as Auto
+                         values in the order written.
+   The line is the JSON text write_jv of the object (row_members spec ++ extras).
+   Sub-rows (WithRow) are not covered (finding F6: declared sub-rows are flattened by CloneValue). *)
+From Coq Require Import Permutation.
+From JL.proofs Require Import UntemplatedBridge TemplateLosslessRow.
+
+Theorem C13_row_upto : forall (O : oracles) jfloat jother n (spec : list (cdecl * slot)) (extras : list (str * jv)),
+  NoDup (map sname spec) -> Forall (slot_ok O jfloat jother) spec -> extras_ok n (map sname spec) extras ->
+  exists line,
+    let t := tpl_of (map fst spec) in
+    write_jv (JObj (row_members spec ++ extras)) = Some line
+    /\ bind (create_row O parse_top_rv (S (S (S n))) t (RMap (row_map spec ++ rv_members extras)))
+            (marshal_row O encode_string jfloat jother (S (S (S n)))) = Ok line
+    /\ get_row O parse_top_rv (S (S (S n))) t line = Ok (row_read spec extras).
+Proof. exact lossless_row_upto. Qed.
+Print Assumptions C13_row_upto.
+
+(* the declared entries of the map in any order (a Go map has no order) *)
+Theorem C13_row_upto_any_order : forall (O : oracles) jfloat jother n (spec : list (cdecl * slot)) (extras : list (str * jv)) kvs,
+  NoDup (map sname spec) -> Forall (slot_ok O jfloat jother) spec -> extras_ok n (map sname spec) extras ->
+  Permutation kvs (row_map spec) ->
+  exists line,
+    let t := tpl_of (map fst spec) in
+    write_jv (JObj (row_members spec ++ extras)) = Some line
+    /\ bind (create_row O parse_top_rv (S (S (S n))) t (RMap (kvs ++ rv_members extras)))
+            (marshal_row O encode_string jfloat jother (S (S (S n)))) = Ok line
+    /\ get_row O parse_top_rv (S (S (S n))) t line = Ok (row_read spec extras).
+Proof. exact lossless_row_upto_any_order. Qed.
+Print Assumptions C13_row_upto_any_order.
+
+(* every column a proved pairing (slot_proved: SlVal with a well-formed UTF-8 name and
+   proved_pairing_upto f T v v' e leaf txt; SlNil / SlHid in a column whose raw type is one cast.To knows,
+   known_rawtype T) — no residual premise per typed column beyond those of the pairing constructors;
+   slot_same_second: same_second f v v' for every typed value *)
+Theorem C13_row_proved_pairings : forall (O : oracles) jfloat jother n (spec : list (cdecl * slot)) (extras : list (str * jv)),
+  NoDup (map sname spec) -> Forall (slot_proved O jfloat) spec -> extras_ok n (map sname spec) extras ->
+  Forall slot_same_second spec
+  /\ exists line,
+    let t := tpl_of (map fst spec) in
+    write_jv (JObj (row_members spec ++ extras)) = Some line
+    /\ bind (create_row O parse_top_rv (S (S (S n))) t (RMap (row_map spec ++ rv_members extras)))
+            (marshal_row O encode_string jfloat jother (S (S (S n)))) = Ok line
+    /\ get_row O parse_top_rv (S (S (S n))) t line = Ok (row_read spec extras).
+Proof. exact lossless_row_proved_upto. Qed.
+Print Assumptions C13_row_proved_pairings.
+
+(* non-vacuity: the row ex_spec / ex_extras of proofs/TemplateLosslessRow.v — numeric(int64)
+   -1234567890123, a hidden column holding int 7, string "é€!" in a column named "é", a nil numeric column
+   absent from the map, boolean true, binary 00 FF 10, a nil string(time.Time) column present in the map,
+   datetime 2023-11-14T23:13:20.000000005+01:00, and the undeclared keys "u":[1,{"k":"v"}], "x":null —
+   meets every premise; it is written as ex_line =
+   {"n":-1234567890123,"é":"é€!","z":null,"b":true,"y":"AP8Q","w":null,"t":"2023-11-14T23:13:20+01:00","u":[1,{"k":"v"}],"x":null}
+   and read back with the time at one second, the hidden column nil *)
+Example C13_row_example : forall O jf jo,
+  NoDup (map sname ex_spec) /\ Forall (slot_proved O jf) ex_spec /\ extras_ok 5 (map sname ex_spec) ex_extras
+  /\ bind (create_row O parse_top_rv 8 (tpl_of (map fst ex_spec)) (RMap (row_map ex_spec ++ rv_members ex_extras)))
+          (marshal_row O encode_string jf jo 8) = Ok ex_line
+  /\ get_row O parse_top_rv 8 (tpl_of (map fst ex_spec)) ex_line = Ok (row_read ex_spec ex_extras).
+Proof.
+  intros. destruct (ex_row_ok O jf) as (Hnd & Hp & Hex).
+  destruct (C13_row_proved_pairings O jf jo 5 ex_spec ex_extras Hnd Hp Hex) as (_ & line & _ & Hc & Hg).
+  cbv zeta in *. rewrite (ex_row_line O jf jo) in Hc. injection Hc as <-. auto.
+Qed.
+
+Example C13_row_example_read :
+  alookup [116] (row_m (row_read ex_spec ex_extras))
+    = Some (CVal (RS (VTime {| tsec := 1700000000; tnsec := 0; toff := 3600 |})) FDateTime (VTime zero_time))
+  /\ alookup [104] (row_m (row_read ex_spec ex_extras)) = Some (CVal rnil FHidden (VStr []))
+  /\ alookup [110] (row_m (row_read ex_spec ex_extras)) = Some (CVal (RS (VInt KInt64 (-1234567890123))) FNumeric (VInt KInt64 0))
+  /\ row_l (row_read ex_spec ex_extras) = [[110]; [104]; [195; 169]; [122]; [98]; [121]; [119]; [116]; [117]; [120]].
+Proof. vm_compute. repeat split; reflexivity. Qed.
